@@ -229,6 +229,24 @@ def run(ctx):
               "accepted by one is refused by the other, so a stored line can fail to LOAD again "
               "(multi-byte text: characters vs bytes)" % meas)
 
+    # a token whose listed spelling is longer than a text that scans to it makes the listing of
+    # a maximal accepted line longer than the limit both doors enforce
+    mn = lt.minutia(cr)
+    dispw = lt.display(cr, "lang::token::Word")
+    longer = []
+    for ch, row in sorted(mn.items()):
+        if row and row[0] == "Word":
+            nm = row[1][1] if isinstance(row[1], tuple) else row[1]
+            d = dispw.get(nm)
+            if isinstance(d, str) and len(d) > len(ch):
+                longer.append((ch, d))
+    ctx.check(not longer, "C05.f", "line-limit/listing-can-outgrow", "",
+              "no single-character spelling lists as a longer word",
+              "single-character spellings list as longer words (%s) and both doors apply the "
+              "1024 limit to text: `10 ` + 340 x `?A:` (1023 bytes) is accepted, lists as 340 x "
+              "`PRINT A:` (2723 bytes), and LOAD of the saved file answers LINE BUFFER OVERFLOW"
+              % longer)
+
     # ---- g: separator
     lnd = cr.need_fn("<lang::line::Line as std::fmt::Display>::fmt")
     ctx.touch(lnd)
